@@ -231,6 +231,12 @@ CFG = {
             "(`%%EO`, `%EOF`, `startxref`, even `%PDF-1.7`); white space + comment. The case line carries the document and the description (kind, length) x 3 - the Rust harness (loader_common.rs case_bytes) and the Lean driver (garbFile) expand it alike; oracle DocSpec.resolve of the document (the filler changes nothing) "
             "AND the header offset reported by FileInfo::file_offset(0) = length of the leading filler (class wrong-header-offset); files above 100000 bytes are oracle-only (`nomodel`: the byte-list model's scans recurse once per byte); 855 cases per seed; corpus/C03/garbage_size_sweep.case: the tiny classic document and the tiny "
             "hybrid file with an object stream behind 1019 / 1020 / 1024 / 1025 / 4096 leading bytes, with 1019-1025 trailing bytes, 1020 / 1024 gap bytes, spelled out; "
+            "IDENTITY MISMATCH BY RETARGETING (`ret`, added after the missed seed C03_8: 'each offset is parsed only once' - an entry whose offset was already visited for an earlier entry was skipped unchecked): for every seed a fixed family, independent of n, over the purpose-built `sys` document "
+            "(plain objects 1, 2; stream 3 with a direct /Length; stream 5 with its /Length in 4 (backward); streams 7, 9 with /Length in 8, 10 (FORWARD: second pass); object-stream container 13 in stream layouts; spellings, padding, file order, table layout from the seed): ONE entry - of object B - is aimed elsewhere while "
+            "every other entry stays correct, so that two entries carry the SAME offset (the swap / relabel corruptions keep every offset unique): every ORDERED pair (A, B) of file-level objects (both walk orders: A numbered below B and above it), B an object of the file (its own object still written) or a number no object carries (6 between the others, 20 above all: an entry is added), "
+            "in all three layouts; in hybrid files additionally every placement of A's and B's entry in the table / in the /XRefStm stream as in-use rows (table entries are walked before the stream's); further targets: the other legal offset of A (start of padding / first digit), one byte into A's number, A's `endobj`, the section itself (`xref` keyword / the cross-reference stream object), "
+            "the /XRefStm stream object, the header (offset 0: a comment, the first object is found); all must be REJECTED - that the case is a mismatch is decided on the bytes alone (DocSpec.headerAt: the identifier spelled at the entry's offset is not the entry's) - plus controls (nothing retargeted, every placement) that must load exactly; 859 cases per seed (thorough: four rounds); "
+            "encoder Driver/C03.lean renderRevT = DocSpec.renderRev + (entries to set / add, numbers moved into the /XRefStm stream), equal to it without them; corpus/C03/retarget_one_entry.case: hand-built minimal instances (classic, forward-/Length stream as target, cross-reference stream, hybrid both directions, endobj / into the object / xref keyword / header) with controls; "
             "every 4th document again with the offsets of two in-use "
             "entries exchanged (must be rejected); every 2nd with one corruption (truncate, alter/delete/insert a byte, replace a number by an extreme "
             "one, cut the middle) judged for correspondence and no panic. Oracle = DocSpec.resolve on what the encoder wrote (never the model); it also "
